@@ -37,6 +37,7 @@ type Engine struct {
 	modPath       string
 	anyLoopSeen   bool
 	knownWritten  map[string]bool
+	nonNilGlobal  map[*ssa.Global]bool
 	usedLemmas    map[string]bool
 }
 
@@ -83,6 +84,9 @@ func (e *Engine) setDB(db *ContractDB) {
 		case "bool":
 			e.ghostSorts[name] = "Bool"
 			e.ghostTypes[name] = boolT
+		case "bytestream":
+			e.ghostSorts[name] = "(Array Int Int)"
+			e.ghostTypes[name] = byteStreamT
 		default:
 			e.ghostSorts[name] = "Int"
 			e.ghostTypes[name] = mathIntT
@@ -347,6 +351,12 @@ func (e *Engine) genFunc(c *Contract, fn *ssa.Function, mode Mode, known map[str
 	vc = newVC(e, c.Key)
 	vc.ufs = e.ar.needUF
 	e.vc = vc
+	e.ar.resolve = func(n string) string {
+		if d, ok := vc.defTerm[n]; ok {
+			return d
+		}
+		return n
+	}
 	e.curContract = c
 	e.entryState = nil
 	e.topMods = nil
@@ -695,6 +705,11 @@ func (e *Engine) assumeGlobalInvOn(gv *ssa.Global, val SV, t types.Type, st *Sta
 	if gv.Pkg == nil || e.vc.noDef > 0 {
 		return
 	}
+	if iv, ok := val.(*IfaceSV); ok && e.initOnceNonNilError(gv) {
+		// decided on the SSA of the package: assigned exactly once, in package
+		// initialisation, from errors.New / fmt.Errorf
+		e.vc.assume("true", fmt.Sprintf("(not (= %s 0))", iv.Tag))
+	}
 	for _, g := range e.db.Globals {
 		if g.Pkg != gv.Pkg.Pkg.Path() || g.Name != gv.Name() {
 			continue
@@ -706,4 +721,53 @@ func (e *Engine) assumeGlobalInvOn(gv *ssa.Global, val SV, t types.Type, st *Sta
 			e.vc.usedExt["global-invariant "+g.Pkg+"."+g.Name+": "+g.Cl.Text] = true
 		}()
 	}
+}
+
+// initOnceNonNilError: the package-level variable is of an interface type, is
+// stored to exactly once in its whole package, and that store is in the package
+// initialiser with a value returned by errors.New or fmt.Errorf.
+func (e *Engine) initOnceNonNilError(gv *ssa.Global) bool {
+	if v, ok := e.nonNilGlobal[gv]; ok {
+		return v
+	}
+	if e.nonNilGlobal == nil {
+		e.nonNilGlobal = map[*ssa.Global]bool{}
+	}
+	res := false
+	defer func() { e.nonNilGlobal[gv] = res }()
+	if _, isIface := gv.Type().(*types.Pointer).Elem().Underlying().(*types.Interface); !isIface {
+		return false
+	}
+	stores := 0
+	good := false
+	var scan func(fn *ssa.Function)
+	scan = func(fn *ssa.Function) {
+		for _, b := range fn.Blocks {
+			for _, in := range b.Instrs {
+				st, ok := in.(*ssa.Store)
+				if !ok || st.Addr != ssa.Value(gv) {
+					continue
+				}
+				stores++
+				if fn.Name() == "init" && fn.Parent() == nil {
+					if call, ok := st.Val.(*ssa.Call); ok {
+						if callee := call.Common().StaticCallee(); callee != nil {
+							k := funcKey(callee)
+							if k == "errors.New" || k == "fmt.Errorf" {
+								good = true
+							}
+						}
+					}
+				}
+			}
+		}
+		for _, a := range fn.AnonFuncs {
+			scan(a)
+		}
+	}
+	for _, fn := range e.pkgFunctions(gv.Pkg.Pkg.Path()) {
+		scan(fn)
+	}
+	res = stores == 1 && good
+	return res
 }
